@@ -1,6 +1,8 @@
 import Lean.Data.Json
 import SkfemVerif.Model.Np
 import SkfemVerif.Model.Topology
+import SkfemVerif.Model.Dofs
+import SkfemVerif.Model.Assembly
 /-
 Line-protocol driver: one JSON object per input line, one JSON value per output line.
 Imports only the (Mathlib-free) models, so it can be linked as an executable.
@@ -67,11 +69,87 @@ def opSplit (j : Json) : Option Json := do
   let n ← (field? j "n") >>= getNat?
   pure <| natMat (arraySplit (List.range len) n)
 
+
+def getTopo? (j : Json) : Option Topo := do
+  let dim ← (field? j "dim") >>= getNat?
+  let nverts ← (field? j "nverts") >>= getNat?
+  let nedges ← (field? j "nedges") >>= getNat?
+  let nfacets ← (field? j "nfacets") >>= getNat?
+  let nt ← (field? j "nt") >>= getNat?
+  let t ← (field? j "t") >>= getNatMat?
+  let t2e ← (field? j "t2e") >>= getNatMat?
+  let t2f ← (field? j "t2f") >>= getNatMat?
+  pure { dim := dim, nverts := nverts, nedges := nedges, nfacets := nfacets, nt := nt, t := t, t2e := t2e, t2f := t2f }
+
+def getCounts? (j : Json) : Option DofCounts := do
+  let l ← (field? j "counts") >>= getNatList?
+  match l with
+  | [a, b, c, d] => pure { nodal := a, edge := b, facet := c, interior := d }
+  | _ => none
+
+def opDofsInit (j : Json) : Option Json := do
+  let tp ← getTopo? j
+  let c ← getCounts? j
+  pure <| Json.mkObj [("nodal", natMat (nodalDofs c tp)), ("edge", natMat (edgeDofs c tp)),
+    ("facet", natMat (facetDofs c tp)), ("interior", natMat (interiorDofs c tp)),
+    ("element_dofs", natMat (elementDofs c tp)), ("N", Json.num (JsonNumber.fromNat (dofsN c tp))),
+    ("total", Json.num (JsonNumber.fromNat (dofsTotal c tp)))]
+
+def getStrList? (j : Json) : Option (List String) :=
+  match j.getArr? with
+  | .ok a => a.toList.mapM (fun x => match x with | Json.str s => some s | _ => none)
+  | _ => none
+
+def getBool? (j : Json) : Option Bool := match j with | Json.bool b => some b | _ => none
+
+/-- dofs.view : flatten of a view given index sets and name filter -/
+def opDofsView (j : Json) : Option Json := do
+  let tp ← getTopo? j
+  let c ← getCounts? j
+  let nodalIx ← (field? j "nodal_ix") >>= getNatList?
+  let facetIx ← (field? j "facet_ix") >>= getNatList?
+  let edgeIx ← (field? j "edge_ix") >>= getNatList?
+  let interiorIx ← (field? j "interior_ix") >>= getNatList?
+  let dofnames ← (field? j "dofnames") >>= getStrList?
+  let names ← (field? j "names") >>= getStrList?
+  let skip ← (field? j "skip") >>= getBool?
+  let nN := (nodalDofs c tp).length
+  let nF := (facetDofs c tp).length
+  let nE := (edgeDofs c tp).length
+  let nI := (interiorDofs c tp).length
+  let v : View := View.mk nodalIx facetIx edgeIx interiorIx
+    (rowsByName dofnames names skip nN 0)
+    (rowsByName dofnames names skip nF nN)
+    (rowsByName dofnames names skip nE (nN + nF))
+    (rowsByName dofnames names skip nI (nN + nF + nE))
+  pure <| Json.mkObj [("flat", natList (v.flatten c tp)), ("nodal_rows", natList v.nodalRows),
+    ("facet_rows", natList v.facetRows), ("edge_rows", natList v.edgeRows),
+    ("interior_rows", natList v.interiorRows)]
+
+def opExpandFacets (j : Json) : Option Json := do
+  let facets ← (field? j "facets") >>= getNatMat?
+  let f2e ← (field? j "f2e") >>= getNatMat?
+  let ix ← (field? j "ix") >>= getNatList?
+  let we ← (field? j "with_edges") >>= getBool?
+  let (v, e) := expandFacets facets f2e ix we
+  pure <| Json.mkObj [("vertices", natList v), ("edges", natList e)]
+
+def opThreadChunks (j : Json) : Option Json := do
+  let nu ← (field? j "Nu") >>= getNat?
+  let nv ← (field? j "Nv") >>= getNat?
+  let n ← (field? j "n") >>= getNat?
+  pure <| Json.arr ((threadChunks nu nv n).map (fun ch =>
+    Json.arr (ch.map (fun p => natList [p.1, p.2])).toArray)).toArray
+
 def dispatch (j : Json) : Json :=
   match field? j "op" with
   | some (Json.str "topo.entities") => (opTopoEntities j).getD (err "bad-args")
   | some (Json.str "topo.inverse") => (opTopoInverse j).getD (err "bad-args")
   | some (Json.str "np.array_split") => (opSplit j).getD (err "bad-args")
+  | some (Json.str "dofs.init") => (opDofsInit j).getD (err "bad-args")
+  | some (Json.str "dofs.view") => (opDofsView j).getD (err "bad-args")
+  | some (Json.str "topo.expand_facets") => (opExpandFacets j).getD (err "bad-args")
+  | some (Json.str "threads.chunks") => (opThreadChunks j).getD (err "bad-args")
   | some (Json.str "ping") => Json.str "pong"
   | _ => err "bad-op"
 
